@@ -69,8 +69,10 @@ class Ops:
       if isinstance(v, PyTuple) and len(v) == len(sort.elems):
         return PyTuple(self.coerce(x, s) for x, s in zip(v, sort.elems))
       raise OutsideSubset(f'cannot coerce {v!r} to {sort}')
-    if isinstance(v, SV) and (v.sort is sort or v.sort.name == sort.name):
+    if isinstance(v, SV) and v.sort is sort:
       return v
+    if isinstance(v, SV) and v.sort.name == sort.name:
+      return SV(sort, v.t)   # same encoding, the target model's own attributes (e.g. default_factory)
     if isinstance(v, SV) and isinstance(v.sort, Union) and not isinstance(sort, Union) and not self.spec_mode:
       return self.coerce(self.unwrap(v), sort)
     if v is NONEV and getattr(sort, 'nullable', False) and hasattr(sort, 'literal') and not isinstance(sort, Opaque):
@@ -105,6 +107,9 @@ class Ops:
       return SV(BOOL, z3.BoolVal(v))
     if isinstance(sort, NoneSort) and v is NONEV:
       return self.lift(v)
+    if isinstance(sort, SeqOf) and isinstance(v, IterView) and v.elem_sort is not None and v.elem_sort.name == sort.elem.name:
+      from .methods import _to_seq
+      return self.coerce(self.deref(_to_seq(self, [v], 'tuple')), sort)
     if isinstance(sort, SeqOf):
       if isinstance(v, PyTuple):
         return self.seq_from_items([self.coerce(x, sort.elem) for x in v], sort.elem)
@@ -580,6 +585,10 @@ class Ops:
       return a.sort.div_hook(self, a, b)
     if name == 'Mult' and isinstance(a, PyTuple) and isinstance(b, int):
       return PyTuple(tuple(a) * b)
+    if name == 'Mult' and isinstance(a, PyTuple) and len(a) == 1 and isinstance(b, SV) and isinstance(getattr(self, '_hint', None), SeqOf):
+      # (x,) * n with a symbolic n: n copies of x (sort taken from the assignment's hint)
+      one = self.seq_from_items([a[0]], self._hint.elem)
+      return self.binop(op, one, b)
     if name == 'Mult' and isinstance(a, SV) and isinstance(a.sort, SeqOf):
       # [x] * n : n copies of the single element
       s_ = a.sort
